@@ -114,6 +114,9 @@ pub struct Knobs {
     /// resolved by selectors (focus DYN).
     #[serde(default)]
     pub connector: bool,
+    /// The agent's `on_stop` sends an ad hoc command (a notification at shutdown).
+    #[serde(default)]
+    pub send_on_stop: bool,
     /// Start value of std's hash keys on the run's thread (iteration order of the product's HashMaps).
     #[serde(default)]
     pub hash_seed: u64,
@@ -316,6 +319,7 @@ pub fn generate(seed: u64, focus: &str, _tier: Tier) -> AgentScenario {
         all_lanes_transient: (focus == "C05" || focus == "MIX") && root.sub("lanes-transient").chance(1, 6),
         initial_contents: matches!(focus, "C05" | "C02" | "C03" | "MIX") && root.sub("initial-contents").chance(1, 5),
         connector: focus == "DYN",
+        send_on_stop: matches!(focus, "C14" | "MIX") && root.sub("send-on-stop").chance(1, 4),
         fail_on_multiple_of: if focus == "C01" && root.sub("handler-fail").chance(1, 3) { 7 } else { 0 },
         persistent: focus != "C04F" && (focus == "C05" || focus == "C05F" || g.rng.chance(1, 3)),
         target_cap: *g.rng.pick(&[8u32, 16, 32, 64, 4096]),
